@@ -5,6 +5,7 @@ import (
 	"encoding/json"
 	"fmt"
 	"io"
+	"os"
 	"sort"
 	"time"
 
@@ -66,6 +67,24 @@ func (e *diskEngine) genCase(seed uint64) *DiskCase {
 		p.MaxBlocks, p.MaxAdds = 16, 48
 	}
 	sc := Generate(p, mix64(seed^0xd15c))
+	if r.Pct(4) {
+		// size ladder: record counts at and around powers of two (a full forest of
+		// 2^k+1 leaves stores exactly 2^(k+1) nodes), where block-wise readers and
+		// writers have their boundaries
+		k := uint(5 + r.Intn(4)) // 33 .. 257 leaves (513 in the thorough tier)
+		if os.Getenv("VERIF_HUGE") == "1" && r.Pct(30) {
+			k = 9
+		}
+		n := 1<<k + 1 + r.Intn(3) - 1
+		if len(sc.Nodes) > 3 {
+			sc.Nodes = []NodeCfg{sc.Nodes[0], sc.Nodes[1], sc.Nodes[3]} // pointer forest, full and partial map forest
+		}
+		sc.Steps = []Step{{Op: "block", Adds: n, Seed: r.Next()}}
+		if r.Bool() {
+			sc.Steps = append(sc.Steps, Step{Op: "block", Dels: []int{r.Intn(n), r.Intn(n)}, Adds: r.Intn(3), Seed: r.Next()})
+		}
+		return &DiskCase{Seed: seed, History: sc}
+	}
 	var steps []Step
 	for _, s := range sc.Steps {
 		switch s.Op {
